@@ -65,6 +65,10 @@ def run(tier: str, seed: int, rep: Report, model: Model) -> dict:
         for lib, present in (("np", n2), ("torch", t2), ("jax", j2)):
             if present and p["works"].get(lib) != ["accept", "DLTypeShapeError"]:
                 rep.violation({"what": f"checking does not work for {lib} in this configuration", "works": p["works"], **rec})
+            for fname, res in (p.get("forms", {}).get(lib, {}) if present else {}).items():
+                rep.count(f"form_{fname}:{lib}:{'ok' if res == ['accept', 'DLTypeShapeError'] else 'differs'}")
+                if res != ["accept", "DLTypeShapeError"]:
+                    rep.violation({"what": f"checking through the {fname} entry point does not work for {lib} in this configuration", "outcomes": res, **rec})
     # a library that is installed but broken (its import raises a plain ImportError, not ModuleNotFoundError) is not importable
     # either: every mask again in that mode, compared with the observation above
     from concurrent.futures import ThreadPoolExecutor
@@ -75,7 +79,7 @@ def run(tier: str, seed: int, rep: Report, model: Model) -> dict:
     masks = [tuple(c == "1" for c in k) for k in keys]
     with ThreadPoolExecutor(max_workers=7) as ex:
         broken = list(ex.map(lambda m: tables.probe(m, broken=True), masks))
-    SAME = ("has_numpy", "has_torch", "has_jax", "import", "supported", "classes", "works")
+    SAME = ("has_numpy", "has_torch", "has_jax", "import", "supported", "classes", "works", "forms")
     for key, p, b in zip(keys, (probes[k] for k in keys), broken):
         rep.case(key + ":broken-install", None)
         rep.count("broken_install_mode:" + str(b.get("import")))
